@@ -311,6 +311,10 @@ pub struct Interp<'a> {
     interposed_serial_base: u32,
     in_interposed_op: bool,
     pub cur_op: usize,
+    /// (conflict, value) per resident index at the previous invariant check
+    last_entries: BTreeMap<u64, (u64, Val)>,
+    /// the running op may replace a value only through one validated write
+    repl_check: bool,
     vetoed_ops: Vec<usize>,
     /// values written before a remove() that returned Ok: dead at the next quiescent point at the latest
     kills_at_quiescence: Vec<Val>,
@@ -406,6 +410,8 @@ impl<'a> Interp<'a> {
             interposed_serial_base: 0,
             in_interposed_op: false,
             cur_op: 0,
+            last_entries: BTreeMap::new(),
+            repl_check: false,
             vetoed_ops: Vec::new(),
             kills_at_quiescence: Vec::new(),
             any_err: false,
@@ -414,6 +420,15 @@ impl<'a> Interp<'a> {
     }
 
     fn fail(&mut self, pred: &'static str, props: &'static [&'static str], msg: String) {
+        // a broken history can fail at every later step: keep the first failures of each predicate only, and stop
+        // executing once there are plenty (memory and time on cases with tens of thousands of steps)
+        if self.failures.iter().filter(|f| f.pred == pred).count() >= 12 {
+            return;
+        }
+        if self.failures.len() >= 400 {
+            self.halted = true;
+            return;
+        }
         if self.want_trace {
             self.trace.push(format!("  !! {} {:?}: {}", pred, props, msg));
         }
@@ -659,6 +674,23 @@ impl<'a> Interp<'a> {
     /// invariants that need no model
     fn check_invariants(&mut self, what: &str) {
         let snap = self.sut.snapshot();
+        // C09, model-free: between two checks at most one write happened (a client insert or one
+        // processor item); if a resident value was replaced in place, the validator must have
+        // agreed to that replacement
+        if self.repl_check && what == "after step" {
+            let mut bad: Vec<String> = Vec::new();
+            for e in snap.entries.iter() {
+                if let Some((cf, old)) = self.last_entries.get(&e.index) {
+                    if *cf == e.conflict && *old != e.value && !self.cfg.validator.ok(old, &e.value) {
+                        bad.push(format!("index {} went from {} to {} although the validator {:?} vetoes that replacement", e.index, old, e.value, self.cfg.validator));
+                    }
+                }
+            }
+            for m in bad {
+                self.fail("replacement_against_validator", &["C09"], format!("{}: {}", what, m));
+            }
+        }
+        self.last_entries = snap.entries.iter().map(|e| (e.index, (e.conflict, e.value))).collect();
         let sum: i64 = snap.costs.iter().map(|(_, c)| *c).sum();
         if sum != snap.used {
             self.fail(
@@ -2218,6 +2250,7 @@ impl<'a> Interp<'a> {
         }
         self.step += 1;
         self.feats.steps += 1;
+        self.repl_check = !self.in_interposed_op && matches!(op, Op::Insert { .. } | Op::InsertIfPresent { .. } | Op::ProcInsert | Op::Remove { .. } | Op::Get { .. } | Op::GetTtl { .. } | Op::Tick | Op::PolicyStep);
         let quiesce = self.cfg.mode == Mode::Quiescent;
         match op {
             Op::Insert { k, cost, ttl, tag } => self.op_insert(*k % self.nkeys(), *cost, *ttl, *tag, false),
